@@ -114,7 +114,10 @@ class DataType:
                 return self
             return DataType(self.kind, nullable=True)
 
-        vtype = type(value)
+        # Classify the value the same way inference does (a subclass of int,
+        # str, ... counts as its base kind), so that promotion does not depend
+        # on the order in which values are seen
+        vtype = infer_kind(value)
 
         # Case 2: Exact match
         if vtype is self.kind:
